@@ -464,6 +464,8 @@ class Corr:
                     else:
                         new_content[t][i, j] = entry[0]
 
+        if N == 1:
+            new_content = [None if entry is None else entry[0, 0] for entry in new_content]
         return Corr(new_content)
 
     def roll(self, dt):
